@@ -61,9 +61,12 @@ def computed_step(row, fields):
 
 
 def find_replace_step(row, fields):
+    # the documented operation: every pattern, in order, substituted in the TEXT of the field's value; a null has no text and
+    # stays null
     for field in fields:
         for pattern in field.get('patterns', []):
-            row[field['name']] = re_sub(str(pattern['find']), str(pattern['replace']), str(row[field['name']]))
+            if row[field['name']] is not None:
+                row[field['name']] = re_sub(str(pattern['find']), str(pattern['replace']), str(row[field['name']]))
     return [row]
 '''
 
@@ -560,7 +563,7 @@ def nat_find_replace(h):
         vals = [h.rng.choice(odd) for _i in range(h.rng.randint(2, 8))]
         rows = [{'a': v, 'b': i} for i, v in enumerate(vals)]
         fields = [{'name': 'a', 'patterns': [{'find': r'\.', 'replace': ','}, {'find': 'True', 'replace': 'yes'}]}]
-        want = [{'a': re.sub('True', 'yes', re.sub(r'\.', ',', str(v))), 'b': i} for i, v in enumerate(vals)]
+        want = [{'a': (None if v is None else re.sub('True', 'yes', re.sub(r'\.', ',', str(v)))), 'b': i} for i, v in enumerate(vals)]
         got = h.run(lambda: list(_find_replace(iter([dict(x) for x in rows]), fields)))
         h.check(got[0] == 'ok' and got[1] == want and all(type(a['a']) is type(b['a']) for a, b in zip(got[1], want)),
                 P + 'find_replace.py::_find_replace', ('equal values that print differently', vals), want, got[:2])
